@@ -36,6 +36,22 @@ CHECKS = {
                 "the rekey condition on the REKEY bit and on the wrapped counter, the same Poly1305 transcript, and init_push/init_pull "
                 "agree (R9.2); short input refused, *mlen_p = 0 on failure (R9.3). Whole-history delivery/ordering is not decided.",
     },
+    "C15": {
+        "engine": "PathAI (E1)",
+        "technique": "path-sensitive bounds-fact analysis of every output store / input load in the decoders",
+        "text": "Static, for all inputs: every store through the decoders' output is at an index for which index < capacity holds on the "
+                "path, every load of the encoded text is below its stated length, capacity exhaustion can only end in a failing return "
+                "(never a truncated success), and success without an end pointer requires position == length. The accepted language, "
+                "round-trip and encoder length formulas are not decided.",
+    },
+    "C16": {
+        "engine": "PathAI (E1) + affine evaluation",
+        "technique": "path-sensitive guard-before-write analysis + affine address evaluation",
+        "text": "Static, for all inputs: sodium_pad writes nothing on any failing path and every write is preceded by blocksize != 0, the "
+                "overflow test and marker-index < max_buflen (reported length = that index + 1); every sodium_unpad load is at "
+                "buf + padded_buflen - 1 - i with i < blocksize after padded_buflen >= blocksize > 0, i.e. inside the final block. Marker "
+                "position, round-trip and the rejection set are not decided.",
+    },
 }
 _PENDING = "check not built yet in this round (design in DESIGN.md §4); no claim is made"
 NOT_APPLICABLE = {
